@@ -7,6 +7,7 @@ import (
 	_ "verif/checks/c02"
 	_ "verif/checks/c04"
 	_ "verif/checks/c05"
+	_ "verif/checks/c06"
 	_ "verif/checks/c08"
 	_ "verif/checks/c10"
 	_ "verif/checks/c14"
